@@ -243,10 +243,10 @@ fn exec_io(sc: &Scenario) -> Report {
                         if kind_of(&r1) != kind_of(&r2) || r1.as_ref().ok() != r2.as_ref().ok() || v1 != v2 {
                             return Err(format!("read_until: wrapped {r1:?} {v1:?} vs twin {r2:?} {v2:?}"));
                         }
-                        match r2 {
-                            Ok(n) => model = model.wrapping_add(n as u64),
-                            Err(_) => slack = (t.pos - before) as u64,
-                        }
+                        // (the bytes consumed before an error are in the caller's buffer: they
+                        // count, with or without an error)
+                        let _ = r2;
+                        model = model.wrapping_add((t.pos - before) as u64);
                         last_fill = 0;
                     }
                     "bytes_next" => {
@@ -673,6 +673,48 @@ fn exec_iter(sc: &Scenario) -> Report {
             if r.violation.is_some() {
                 break;
             }
+        }
+        let by_value = sc.c("consume_by_value");
+        if by_value > 0 && r.violation.is_none() && r.harness_error.is_none() {
+            // the rest is consumed by internal iteration, which takes the wrapper by value
+            // (for_each / count / last / fold): same items, same count, same finish
+            let rest = t.len() as u64;
+            let step = call(|| -> Result<(), String> {
+                let f = |a: u64, x: u32| a.wrapping_mul(31).wrapping_add(x as u64);
+                let (a, b): (u64, u64) = match by_value {
+                    1 => {
+                        let (mut x, mut y) = (0u64, 0u64);
+                        w.for_each(|v| x = f(x, v));
+                        t.for_each(|v| y = f(y, v));
+                        (x, y)
+                    }
+                    2 => (w.count() as u64, t.count() as u64),
+                    3 => (w.last().map_or(u64::MAX, |v| v as u64), t.last().map_or(u64::MAX, |v| v as u64)),
+                    _ => (w.fold(0, f), t.fold(0, f)),
+                };
+                if a != b {
+                    return Err(format!("internal iteration (kind {by_value}): wrapped {a} vs twin {b}"));
+                }
+                Ok(())
+            });
+            let at = format!("by-value consumption (kind {by_value})");
+            match step {
+                Err(p) => r.violate("C17.no_panic", format!("{at} panicked: {p}")),
+                Ok(Err(d)) => r.violate("C17.transparency", format!("{at}: {d}")),
+                Ok(Ok(())) => {
+                    if !exhausted {
+                        model += rest;
+                        model = expected_after_exhaustion(&sc, model);
+                    }
+                    check_pos(&mut r, &pb, model, 0, &at);
+                    if !pb.is_finished() {
+                        r.violate("C17.finish_on_exhaustion", format!("{at}: the iterator was exhausted but is_finished() is false"));
+                    }
+                    r.probe("exhausted_by_internal_iteration");
+                }
+            }
+            r.nontrivial = true;
+            return r;
         }
         // dropping an unexhausted wrapper (cancellation) leaves the count alone
         let before = pb.position();
@@ -1218,6 +1260,9 @@ impl Check for C17 {
                 sc.set("n_items", items);
                 sc.set("len0", *rng.pick(&[items, items + 5, 0, items / 2]));
                 sc.set("p_pending", *rng.pick(&[0, 300]));
+                if mode == "iter" && rng.chance(1, 3) {
+                    sc.set("consume_by_value", rng.range(1, 4));
+                }
                 let mut ops = vec![];
                 for _ in 0..rng.range(1, items + 4) {
                     ops.push(if mode == "stream" {
@@ -1274,6 +1319,7 @@ impl Check for C17 {
             ("leaf_iter_mode", 0),
             ("full_after", 0),
             ("n_items", 0),
+            ("consume_by_value", 0),
             ("use_threads", 0),
             ("data_len", 0),
             ("now_jitter_ns", 0),
